@@ -39,6 +39,7 @@ package c13
 // retrying when the watchdog fires is inconclusive.
 
 import (
+	"errors"
 	"fmt"
 	"sort"
 	"strings"
@@ -75,6 +76,8 @@ type pubScript struct {
 	Sub        string    `json:"subscriber"`
 	SubFirst   bool      `json:"subscriber_created_before_publisher"`
 	Start      faults    `json:"start_faults"`
+	ClientFail int       `json:"etcd_client_creation_fails,omitempty"` // the first KeepAlive() cannot even get a client
+	Opt        string    `json:"publisher_option,omitempty"`           // "", account, tls
 	StartRetry bool      `json:"caller_retries_failed_start,omitempty"`
 	Eps        []episode `json:"episodes"`
 	Systematic bool      `json:"systematic"`
@@ -130,6 +133,10 @@ func systematicPubScripts() []pubScript {
 		pubScript{SubMode: 1, SubFirst: true, Start: faults{Put: 1}, StartRetry: true, Eps: []episode{{Kind: epStop}}, Systematic: true},
 		pubScript{SubMode: 1, SubFirst: true, Start: faults{KeepAlive: 1}, StartRetry: true, Eps: []episode{{Kind: epPauseResume}}, Systematic: true},
 		pubScript{SubMode: 0, Start: faults{KeepAlive: 1}, Systematic: true},
+		// the etcd client cannot be created at first (connection-level error), the caller retries
+		pubScript{SubMode: 1, SubFirst: false, ClientFail: 1, StartRetry: true, Eps: []episode{{Kind: epLost, F: faults{KeepAlive: 1}}}, Systematic: true},
+		pubScript{SubMode: 0, ClientFail: 2, StartRetry: true, Opt: "account", Eps: []episode{{Kind: epPauseResume}}, Systematic: true},
+		pubScript{SubMode: 2, SubFirst: true, Opt: "tls", Eps: []episode{{Kind: epEnded, F: faults{Grant: 1}}}, Systematic: true},
 	)
 	return out
 }
@@ -163,7 +170,11 @@ func randomPubScript(r *kit.Rand) pubScript {
 		s.Start = randomFaults(r, false)
 		s.Start.Revoke = 0
 		s.StartRetry = r.Chance(0.7)
+	} else if r.Chance(0.08) && (s.SubMode == 0 || !s.SubFirst) {
+		s.ClientFail = r.Range(1, 2)
+		s.StartRetry = true
 	}
+	s.Opt = []string{"", "account", "tls"}[r.Pick(8, 1, 1)]
 	budget := 3 // injected faults cost one real second each
 	for i, n := 0, r.Pick(0, 5, 4, 2); i < n; i++ {
 		e := episode{Kind: r.Pick(5, 3, 4, 1, 1), Responses: r.Pick(3, 1, 1) * r.Range(1, 20)}
@@ -428,6 +439,21 @@ func (p *pubHist) start() {
 		}
 		return err, true
 	}
+	for i := 0; i < s.ClientFail; i++ {
+		// connection-level: the registry cannot create its etcd client; KeepAlive() has to
+		// report that, the caller tries again
+		p.stepf("KeepAlive() while the etcd client cannot be created")
+		err, ok := attempt(faults{})
+		if !ok {
+			return
+		}
+		if err == nil {
+			p.c.Obs("pub_client_errors_not_returned", 1)
+			break
+		}
+		p.steps[len(p.steps)-1] += " -> error: " + err.Error()
+		p.c.Obs("pub_client_errors_returned", 1)
+	}
 	p.stepf("KeepAlive() [%s]", s.Start.class())
 	err, ok := attempt(s.Start)
 	if !ok {
@@ -651,11 +677,31 @@ func runPubHistory(c *kit.Case, s *pubScript, ep string) {
 	pubSeq.Unlock()
 	f := newFake(sharedConn)
 	le := newLeaseEtcd(f, 7587848943834334000+n*1000)
-	setClientFor(ep, func() (any, error) { return le, nil })
+	clientFails := s.ClientFail
+	var cfMu sync.Mutex
+	setClientFor(ep, func() (any, error) {
+		cfMu.Lock()
+		defer cfMu.Unlock()
+		if clientFails > 0 {
+			clientFails--
+			return nil, errors.New("context deadline exceeded (client creation failure injected by the c13 harness)")
+		}
+		return le, nil
+	})
 	p := &pubHist{c: c, id: fmt.Sprintf("%s#pub%d", c.ID, s.G), s: s, ep: ep, key: "svc", value: fmt.Sprintf("10.9.%d.%d:8080", (s.G/250)%250, s.G%250), le: le}
 	var opts []discov.PubOption
 	if s.WithID {
 		opts = append(opts, discov.WithId(int64(7000+s.G)))
+	}
+	switch s.Opt {
+	case "account":
+		opts = append(opts, discov.WithPubEtcdAccount("verif", "secret"))
+		c.Obs("pub_with_account_option", 1)
+	case "tls":
+		if cert, key, ca, err := tlsFiles(); err == nil {
+			opts = append(opts, discov.WithPubEtcdTLS(cert, key, ca, true))
+			c.Obs("pub_with_tls_option", 1)
+		}
 	}
 	p.pub = discov.NewPublisher([]string{ep}, p.key, p.value, opts...)
 	mkSubs := func() {
@@ -716,7 +762,7 @@ func runPubHistory(c *kit.Case, s *pubScript, ep string) {
 	c.Obs("pub_leases_expired_by_ttl", le.nExpired)
 	le.lmu.Unlock()
 	c.Obs("pub_histories", 1)
-	parts := []any{"publisher", s.WithID, s.Sub, s.SubFirst, s.Start.class(), s.StartRetry}
+	parts := []any{"publisher", s.WithID, s.Sub, s.SubFirst, s.Start.class(), s.StartRetry, s.ClientFail, s.Opt}
 	for _, st := range p.steps {
 		parts = append(parts, stripLease(st))
 	}
